@@ -557,7 +557,7 @@ impl RobotBody {
 
             // Base does not move, we do not need to check for collision against the joint
             // that also did not.
-            if i != J1 && !skip.contains(&i) && self.check_required(i, J1, &skip) {
+            if i != J1 && !skip.contains(&i) && self.check_required(i, J_BASE, &skip) {
                 if let Some(base) = &self.base {
                     let accessory = &base.mesh;
                     let accessory_pose = &base.base_pose;
